@@ -210,7 +210,7 @@ func init() {
 		ID:          "C08",
 		Run:         RunC08,
 		Replay:      func(c *Ctx, entry, input string) { CheckC08(c, entry, input) },
-		Rule:        "cases = sentences of grammar G written from the documentation (internal/gen/grammar.go, ddl.go; scope in internal/gen/SCOPE.md): the systematic each-choice set (every alternative of every production, every optional clause on/off, every list at lengths min/min+1/3) under upper-case/canonical, lower-case/tight and random-case/hostile-trivia renderings, plus random derivations; each must be accepted by its entry point and by ParseStatement with reflect.DeepEqual trees (positions included); random ';'-joined lists of 0-5 accepted sentences with and without trailing ';' through ParseStatements/ParseDDLs/ParseDMLs; value-slot matrix (every expression form in every slot that takes any expression must be accepted); size relation: a sentence (systematic set, corpus, hand-written hosts with parenthesised query operands) accepted with one of its lists widened by 13 elements must be accepted with it widened by 900; distinct_nontrivial = distinct token-kind skeletons; a query slot matrix (9 query forms as parenthesised leading operand x 10 larger query forms x 22 query slots)",
+		Rule:        "cases = sentences of grammar G written from the documentation (internal/gen/grammar.go, ddl.go; scope in internal/gen/SCOPE.md): the systematic each-choice set (every alternative of every production, every optional clause on/off, every list at lengths min/min+1/3) under upper-case/canonical, lower-case/tight and random-case/hostile-trivia renderings, plus random derivations; each must be accepted by its entry point and by ParseStatement with reflect.DeepEqual trees (positions included); random ';'-joined lists of 0-5 accepted sentences with and without trailing ';' through ParseStatements/ParseDDLs/ParseDMLs; value-slot matrix (every expression form in every slot that takes any expression must be accepted); size relation: a sentence (systematic set, corpus, hand-written hosts with parenthesised query operands) accepted with one of its lists widened by 13 elements must be accepted with it widened by 900; distinct_nontrivial = distinct token-kind skeletons; a query slot matrix (9 query forms as parenthesised leading operand x 12 larger query forms x 22 query slots)",
 		Assumptions: []string{"G is the reference grammar; constructs memefish does not implement are excluded and recorded in SCOPE.md", "documented forms that memefish rejects are fixed scope probes, listed in KNOWN_FINDINGS.txt by exact input"},
 		Floors: func(m *Merged) []string {
 			var f []string
